@@ -3,7 +3,7 @@ actor handle?  Strong = ActorRef, a strong mpsc Sender, a mailbox message (an en
 ActorRef), a strong type-erased handle. References, weak handles, receivers and foreign opaque
 futures own none. Crate-local coroutines are looked into (captures + saved locals)."""
 
-STRONG_ADTS = {"actor_ref::ActorRef", "tokio::sync::mpsc::Sender", "MailboxMessage",
+STRONG_ADTS = {"actor_ref::ActorRef", "tokio::sync::mpsc::Sender",
                "tokio::sync::mpsc::OwnedPermit", "tokio::sync::mpsc::UnboundedSender"}
 NON_OWNING_ADTS = {"tokio::sync::mpsc::Receiver", "tokio::sync::mpsc::WeakSender", "actor_ref::ActorWeak",
                    "std::marker::PhantomData", "tokio::sync::mpsc::UnboundedReceiver", "tokio::sync::mpsc::WeakUnboundedSender"}
@@ -12,6 +12,9 @@ STRONG_DYN = {"handler::TellHandler", "handler::AskHandler", "actor_control::Act
 
 def owns_strong(f, ty, _seen=None, _depth=0):
     """Returns a witness string (path to the strong handle) or None."""
+    import anchors
+    if ty.k == "adt" and ty.defn == anchors.names(f).mailbox:
+        return ty.s
     if _seen is None:
         _seen = set()
     if ty.id in _seen or _depth > 12:
